@@ -156,7 +156,7 @@ func (r *scenRun) call(kind string, ev Ev, yield bool, f func()) bool {
 		return ret()
 	case <-time.After(r.watchdog - 2*time.Second):
 	}
-	b := analyseBlocked(fullDump(), gid)
+	b := analyseOpen(gid)
 	js, _ := json.Marshal(b)
 	r.log.add(Ev{K: "open", C: c, N: ev.N, Task: ev.Task, X: string(js), R: r.rnd()})
 	r.abort(fmt.Sprintf("%s of %s%s did not return within %v", kind, ev.N, ev.Task, r.watchdog))
@@ -447,11 +447,13 @@ func (r *scenRun) removeTask(t *task, pauseFirst, yield bool) bool {
 		return true
 	}
 	t.removed = true
+	slack := 1 // a reader that is not parked may hold one report it has taken out but not yet counted
 	if pauseFirst {
 		ack := make(chan struct{})
 		select {
 		case t.pause <- ack:
 			<-ack
+			slack = 0
 		case <-time.After(5 * time.Second):
 		}
 	}
@@ -459,7 +461,7 @@ func (r *scenRun) removeTask(t *task, pauseFirst, yield bool) bool {
 	if ok {
 		n := len(t.ch)
 		g := int(atomic.LoadInt32(&t.got))
-		r.log.add(Ev{K: "rm.buffered", Task: t.id.String(), Seq: n + g})
+		r.log.add(Ev{K: "rm.buffered", Task: t.id.String(), Seq: n + g + slack})
 	}
 	select {
 	case t.resume <- struct{}{}:
@@ -1009,7 +1011,7 @@ func (r *scenRun) checkTapCalls() {
 				continue
 			}
 		}
-		b := analyseBlocked(fullDump(), oldest.gid)
+		b := analyseOpen(oldest.gid)
 		js, _ := json.Marshal(b)
 		r.log.add(Ev{K: "open", C: oc, N: oldest.link, X: string(js)})
 		r.mu.Lock()
